@@ -66,7 +66,15 @@ func runCase(r *common.Rng, id int, c basmdump.Case, steps int, stims map[int][]
 			out.Line("%s", l)
 		}
 	}
-	if len(bm.Domains) >= 2 && (stims == nil || stims[-1] != nil) {
+	hasData := false
+	for _, d := range bm.Domains {
+		if len(d.Data.Vars) > 0 {
+			hasData = true
+		}
+	}
+	// machines with data sections: the reference has no whole-machine interpreter for them (each processor is compared on
+	// its own above), and a wrong address makes bondmachine.VM panic inside a goroutine, which nothing can recover
+	if len(bm.Domains) >= 2 && !hasData && (stims == nil || stims[-1] != nil) {
 		// the whole machine: all processors, the bonds between them, the external ports
 		var st []basmdump.Stim
 		if stims != nil {
@@ -101,6 +109,12 @@ func main() {
 			if i%12 == 11 {
 				// outside the model (ROM+RAM code, data sections): only "no panic, unfit rejected" is judged here; C16 validates them
 				runCase(r, i, basmdump.GenExtCase(r), steps, nil)
+				continue
+			}
+			if i%6 == 2 {
+				// data sections (numbers and quoted strings, one code section shared by processors with different data):
+				// outside the model assembler, but the meaning is compared (data cells + per-tick simulation)
+				runCase(r, i, basmdump.GenDataCase(r), steps, nil)
 				continue
 			}
 			runCase(r, i, basmdump.GenCase(r), steps, nil)
